@@ -18,6 +18,7 @@ import (
 	"math/rand"
 	"os"
 	"reflect"
+	"runtime"
 	"sort"
 	"strconv"
 	"strings"
@@ -106,6 +107,11 @@ type ZLists struct {
 type ZMaps struct {
 	SS map[string]string
 	SP map[string]*ZInner
+	SI map[string]int
+	IS map[int]string
+	SU map[string]uint32
+	SV map[string]ZInner
+	SF map[string]float32
 }
 type ZEmbedded struct {
 	ZInner
@@ -162,7 +168,9 @@ func siMillis(rng *rand.Rand) time.Time {
 	return time.Unix(ms/1000, (ms%1000)*1e6).UTC()
 }
 
-func siEqual(a, b interface{}) bool { return siEq(reflect.ValueOf(a), reflect.ValueOf(b), map[[2]uintptr]bool{}) }
+func siEqual(a, b interface{}) bool {
+	return siEq(reflect.ValueOf(a), reflect.ValueOf(b), map[[2]uintptr]bool{})
+}
 
 // siEq: equality up to the documented normalisations (nil == empty containers, time as instant at ms
 // resolution, -0 == 0, NaN == NaN).
@@ -302,16 +310,28 @@ func siZoo(rng *rand.Rand, n int) map[string]interface{} {
 	}
 	ss := map[string]string{}
 	sp := map[string]*ZInner{}
+	si, is, su, sv, sf := map[string]int{}, map[int]string{}, map[string]uint32{}, map[string]ZInner{}, map[string]float32{}
 	for i := 0; i < n && i < 40; i++ {
 		ss[siRandString(rng, 3)+strconv.Itoa(i)] = siRandString(rng, 2)
 		sp["k"+strconv.Itoa(i)] = &ZInner{int32(i), "v"}
+		si["i"+strconv.Itoa(i)] = i * 100003
+		is[i*7-3] = siRandString(rng, 2)
+		su["u"+strconv.Itoa(i)] = math.MaxUint32 - uint32(i)
+		sv["v"+strconv.Itoa(i)] = ZInner{int32(i), "s"}
+		sf["f"+strconv.Itoa(i)] = float32(i) + 0.25
+	}
+	if n > 2 {
+		// a nil pointer is a value, the empty string is a key and a value
+		sp["nil"] = nil
+		ss[""] = "empty key"
+		ss["empty value"] = ""
 	}
 	return map[string]interface{}{
 		"scalars": &ZScalars{B: n%2 == 0, I8: int8(n), I16: int16(-n), I32: math.MinInt32 + int32(n), I: n * 1000, I64: math.MaxInt64 - int64(n),
 			U8: uint8(n), U16: uint16(n * 7), U32: math.MaxUint32 - uint32(n), U: uint(n) << 20, U64: uint64(n) << 40, F32: float32(n) + 0.5, F64: float64(n) * 1.1,
 			S: siRandString(rng, n), Bin: bytes.Repeat([]byte{byte(n)}, n), T: siMillis(rng)},
 		"lists":     &ZLists{Ints: ints, Longs: longs, Strs: strs, Floats: floats, Structs: structs, Ptrs: ptrs, Nested: nested, Times: times},
-		"maps":      &ZMaps{SS: ss, SP: sp},
+		"maps":      &ZMaps{SS: ss, SP: sp, SI: si, IS: is, SU: su, SV: sv, SF: sf},
 		"embedded":  &ZEmbedded{ZInner{int32(n), "e"}, 7},
 		"named":     &ZWithNamed{A: ZNamed{"a"}, L: []ZNamed{{"x"}, {"y"}}},
 		"[]int32":   ints,
@@ -605,7 +625,7 @@ func siC04(r *siReport) {
 	}
 	siC04Slices(r)
 	siC04Kinds(r)
-	r.done("every assignment of the 6 pointer slots of 3 nodes over {nil,n0,n1,n2} (4096 graphs), every 7th with a slice of pointers incl. duplicates, nil and a back edge; every assignment of 6 slice slots of 2 nodes over {nil, empty, two shared lists} (4096 graphs: the same slice in sibling fields, a list that contains its owner, empty slices of two element types before a shared pointer); 3 shapes with two containers of different kinds at one address before a shared pointer, each with typed and with untyped lists")
+	r.done("every assignment of the 6 pointer slots of 3 nodes over {nil,n0,n1,n2} (4096 graphs), every 7th with a slice of pointers incl. duplicates, nil and a back edge; every assignment of 6 slice slots of 2 nodes over {nil, empty, two shared lists} (4096 graphs: the same slice in sibling fields, a list that contains its owner, empty slices of two element types before a shared pointer); 3 shapes with two containers of different kinds at one address before a shared pointer, 3 with sub-slices of one array, each with typed and with untyped lists")
 }
 
 // ZK*: two containers of different kinds at one address (a slice and a pointer to its first element, a struct
@@ -624,6 +644,7 @@ type ZKIn struct {
 	First ZInner
 	N     int32
 }
+type ZSub struct{ A, B, C []int32 }
 type ZK3 struct {
 	W    *ZKIn
 	F    *ZInner
@@ -652,6 +673,24 @@ func siC04Kinds(r *siReport) {
 	x := &ZInner{9, "x"}
 	check("kinds/ptr-to-first-element-then-slice", &ZK1{P: &s[0], S: s, Q: x, R: x}, func(o interface{}) *ZInner { return o.(*ZK1).Q }, func(o interface{}) *ZInner { return o.(*ZK1).R })
 	check("kinds/slice-then-ptr-to-first-element", &ZK2{S: s, P: &s[0], Q: x, R: x}, func(o interface{}) *ZInner { return o.(*ZK2).Q }, func(o interface{}) *ZInner { return o.(*ZK2).R })
+	// slices that start at one address with different lengths are different lists
+	{
+		base := []int32{1, 2, 3}
+		for ci, v := range []*ZSub{{A: base[:2], B: base, C: base[:2]}, {A: base[:0], B: base, C: base}, {A: base, B: base[:1], C: base[:2]}} {
+			cn := fmt.Sprintf("kinds/sub-slices-%d", ci)
+			out, err := siRoundTrip(v)
+			if err != nil {
+				r.fail(cn, err.Error())
+				continue
+			}
+			g, ok := out.(*ZSub)
+			if !ok || len(g.A) != len(v.A) || len(g.B) != len(v.B) || len(g.C) != len(v.C) || !siEqual(v, out) {
+				r.fail(cn, fmt.Sprintf("got %+v want %+v", out, v))
+				continue
+			}
+			r.ok(cn)
+		}
+	}
 	w := &ZKIn{First: ZInner{3, "c"}, N: 4}
 	check("kinds/struct-then-ptr-to-first-field", &ZK3{W: w, F: &w.First, Q: x, R: x}, func(o interface{}) *ZInner { return o.(*ZK3).Q }, func(o interface{}) *ZInner { return o.(*ZK3).R })
 }
@@ -916,8 +955,14 @@ func siC05(r *siReport) {
 	r.done("all 120 permutations of 5 fields x {all, one dropped, unknown field first, unknown field in the middle} x class table positions {0,1,2} (and {15,16,17,40} for every 17th permutation)")
 }
 
+type ZNest struct {
+	G [][]int32
+	N int32
+}
+
 func siC03(r *siReport) {
-	tm := map[string]reflect.Type{"[int": reflect.TypeOf([]int32{}), "ZInner": reflect.TypeOf(ZInner{})}
+	tm := map[string]reflect.Type{"[int": reflect.TypeOf([]int32{}), "ZInner": reflect.TypeOf(ZInner{}), "[string": reflect.TypeOf([]string{}), "[goint": reflect.TypeOf([]int{}),
+		"[ZInnerV": reflect.TypeOf([]ZInner{}), "[ZInnerP": reflect.TypeOf([]*ZInner{}), "ZNest": reflect.TypeOf(ZNest{})}
 	type tc struct {
 		name string
 		bs   []byte
@@ -942,6 +987,12 @@ func siC03(r *siReport) {
 		{"binary/two-octet-form-3", []byte{0x34, 3, 1, 2, 3}, []byte{1, 2, 3}},
 		{"binary/two-octet-form-260", append([]byte{0x35, 4}, bytes.Repeat([]byte{7}, 260)...), bytes.Repeat([]byte{7}, 260)},
 		{"binary/chunk-then-two-octet", []byte{0x41, 0, 1, 9, 0x34, 2, 1, 2}, []byte{9, 1, 2}},
+		{"list/nested-untyped-into-typed-field", append(append([]byte{'C', 5}, "ZNest"...), 0x92, 1, 'g', 1, 'n', 0x60, 0x79, 0x7a, 0x91, 0x92, 0x95), &ZNest{G: [][]int32{{1, 2}}, N: 5}},
+		{"list/var-untyped-with-null", []byte{0x57, 0x90, 0x4e, 0x91, 0x5a}, []interface{}{int32(0), nil, int32(1)}},
+		{"list/var-typed-strings-with-null", append(append([]byte{0x55, 7}, "[string"...), 0x4e, 0x01, 'a', 0x5a), []string{"", "a"}},
+		{"list/var-typed-go-int", append(append([]byte{0x55, 6}, "[goint"...), 0x90, 0x91, 0x5a), []int{0, 1}},
+		{"list/var-typed-structs-by-value", append(append(append([]byte{'C', 6}, "ZInner"...), 0x92, 1, 'a', 1, 's', 0x55, 8), append([]byte("[ZInnerV"), 0x60, 0x91, 1, 'x', 0x60, 0x92, 1, 'y', 0x5a)...), []ZInner{{1, "x"}, {2, "y"}}},
+		{"list/var-typed-pointers-with-null", append(append(append([]byte{'C', 6}, "ZInner"...), 0x92, 1, 'a', 1, 's', 0x55, 8), append([]byte("[ZInnerP"), 0x60, 0x91, 1, 'x', 0x4e, 0x60, 0x92, 1, 'y', 0x5a)...), []*ZInner{{1, "x"}, nil, {2, "y"}}},
 		{"list/var-untyped", []byte{0x57, 0x90, 0x91, 'Z'}, []interface{}{int32(0), int32(1)}},
 		{"list/var-typed", []byte{0x55, 4, '[', 'i', 'n', 't', 0x90, 0x91, 'Z'}, []int32{0, 1}},
 		{"list/fixed-typed-V", []byte{'V', 4, '[', 'i', 'n', 't', 0x92, 0x90, 0x91}, []int32{0, 1}},
@@ -972,7 +1023,7 @@ func siC03(r *siReport) {
 			r.ok(c.name)
 		}
 	}
-	r.done("28 hand-written alternative encodings from the grammar (full-width/compact scalars, chunk splits, all four binary forms, variable/fixed/compact lists, type back-reference, long-form instance, class definitions away from their first instance)")
+	r.done("34 hand-written alternative encodings from the grammar (full-width/compact scalars, chunk splits, all four binary forms, variable/fixed/compact lists, variable-length lists with null elements and with elements that need conversion, type back-reference, long-form instance, class definitions away from their first instance)")
 }
 
 // ---------------------------------------------------------------- C06: streaming
@@ -1001,6 +1052,22 @@ func (r *siCountingReader) ReadRune() (rune, int, error) {
 
 func siC06(r *siReport) {
 	rng := rand.New(rand.NewSource(siSeed()))
+	{
+		// the same map written twice on one stream: the second occurrence is a back-reference and must read back as the same kind of value
+		mm := map[interface{}]interface{}{"k": int32(1)}
+		var buf bytes.Buffer
+		e := NewEncoder(&buf, nil)
+		e.WriteObject(mm)
+		e.WriteObject(mm)
+		d := NewDecoder(bufio.NewReader(bytes.NewReader(buf.Bytes())), nil)
+		a, err1 := d.ReadObject()
+		b, err2 := d.ReadObject()
+		if err1 != nil || err2 != nil || reflect.TypeOf(a) != reflect.TypeOf(b) || !siEqual(a, b) {
+			r.fail("map-sent-twice", fmt.Sprintf("first %T, second %T (%v %v)", a, b, err1, err2))
+		} else {
+			r.ok("map-sent-twice")
+		}
+	}
 	shared := &ZInner{9, "shared"}
 	lst := []interface{}{int32(1), "two"}
 	for round := 0; round < siScale(60, 1500); round++ {
@@ -1095,7 +1162,7 @@ func siC06(r *siReport) {
 			r.ok(cn)
 		}
 	}
-	r.done(fmt.Sprint(siScale(60, 1500))+" seeded sequences of 1..50 mixed values (ints, strings, structs, a shared pointer, a shared list, binaries up to 5000 octets, maps, doubles, typed lists) through one encoder / one decoder with a byte-counting reader without read-ahead")
+	r.done(fmt.Sprint(siScale(60, 1500)) + " seeded sequences of 1..50 mixed values (ints, strings, structs, a shared pointer, a shared list, binaries up to 5000 octets, maps, doubles, typed lists) through one encoder / one decoder with a byte-counting reader without read-ahead")
 }
 
 // ---------------------------------------------------------------- C13 / C15: unsupported values and failing writers
@@ -1329,6 +1396,27 @@ func siC14(r *siReport) {
 			}
 		}
 	}
+	// a list referenced many times into fields of another slice type: the work must not be (elements x references)
+	{
+		in := []byte{0x57, 0x58, 'I', 0, 0, 0x0b, 0xb8}
+		for i := 0; i < 3000; i++ {
+			in = append(in, 0x90)
+		}
+		in = append(in, 'C', 1, 'Q', 0x91, 1, 'f')
+		for i := 0; i < 2000; i++ {
+			in = append(in, 0x60, 0x51, 0x91)
+		}
+		in = append(in, 0x5a)
+		var m0, m1 runtime.MemStats
+		runtime.ReadMemStats(&m0)
+		ToObject(in, map[string]reflect.Type{"Q": reflect.TypeOf(struct{ F []int64 }{})})
+		runtime.ReadMemStats(&m1)
+		if mb := (m1.TotalAlloc - m0.TotalAlloc) >> 20; mb > 20 {
+			r.fail("amplification/list-referenced-2000-times", fmt.Sprintf("%d MB allocated for %d octets of input", mb, len(in)))
+		} else {
+			r.ok("amplification/list-referenced-2000-times")
+		}
+	}
 	// values that contain themselves, arriving where another type is expected (error paths must not print them)
 	try("cyclic/list-into-int-field", []byte{'C', 0x01, 'T', 0x91, 0x01, 'f', 0x60, 0x79, 0x51, 0x91}, map[string]reflect.Type{"T": reflect.TypeOf(struct{ F []int64 }{})})
 	try("cyclic/list-into-float-field", []byte{'C', 0x01, 'T', 0x91, 0x01, 'f', 0x60, 0x79, 0x51, 0x91}, map[string]reflect.Type{"T": reflect.TypeOf(struct{ F []float64 }{})})
@@ -1412,7 +1500,7 @@ func siC11(r *siReport) {
 			r.ok(cn)
 		}
 	}
-	r.done(fmt.Sprint(siScale(80, 2000))+" seeded histories of length 0..29 over {encode ok, encode failing, decode ok, decode garbage, streaming write, cyclic encode} followed by 4 probe values compared with a fresh serializer")
+	r.done(fmt.Sprint(siScale(80, 2000)) + " seeded histories of length 0..29 over {encode ok, encode failing, decode ok, decode garbage, streaming write, cyclic encode} followed by 4 probe values compared with a fresh serializer")
 }
 
 // ---------------------------------------------------------------- C16: extraction
@@ -1431,10 +1519,10 @@ type ZMutB struct {
 
 func siC16(r *siReport) {
 	witnesses := map[string][]interface{}{
-		"ZRec":      {&ZRec{}, &ZRec{V: 1, Next: &ZRec{V: 2}, Kids: []*ZRec{{V: 3}}, M: map[string]*ZRec{"k": {V: 4}}}},
-		"ZMutA":     {&ZMutA{}, &ZMutA{B: &ZMutB{A: &ZMutA{}, L: [][]ZInner{{{1, "a"}}}}}, &ZMutA{B: &ZMutB{L: [][]ZInner{{{1, "a"}}, {}, {{2, "b"}}}}}},
-		"ZLists":    {&ZLists{}, siZoo(rand.New(rand.NewSource(1)), 3)["lists"]},
-		"ZMaps":     {&ZMaps{}, siZoo(rand.New(rand.NewSource(1)), 3)["maps"]},
+		"ZRec":       {&ZRec{}, &ZRec{V: 1, Next: &ZRec{V: 2}, Kids: []*ZRec{{V: 3}}, M: map[string]*ZRec{"k": {V: 4}}}},
+		"ZMutA":      {&ZMutA{}, &ZMutA{B: &ZMutB{A: &ZMutA{}, L: [][]ZInner{{{1, "a"}}}}}, &ZMutA{B: &ZMutB{L: [][]ZInner{{{1, "a"}}, {}, {{2, "b"}}}}}},
+		"ZLists":     {&ZLists{}, siZoo(rand.New(rand.NewSource(1)), 3)["lists"]},
+		"ZMaps":      {&ZMaps{}, siZoo(rand.New(rand.NewSource(1)), 3)["maps"]},
 		"ZWithNamed": {&ZWithNamed{}, &ZWithNamed{A: ZNamed{"a"}, L: []ZNamed{{"b"}}}},
 	}
 	var names []string
